@@ -18,8 +18,14 @@ namespace YModel
 
 abbrev Key := List Charge
 
-/-- order of block keys = Python tuple order on the flattened charges -/
-def keyLt (a b : Key) : Bool := lexLt a.flatten b.flatten
+/-- order of block keys: lexicographic over the legs, each charge in Python tuple order.  For keys of
+one tensor (same rank, same NSYM) this is the Python tuple order on the flattened charges, which is how
+yastn sorts `struct.t`. -/
+def keyLt : Key → Key → Bool
+  | [], [] => false
+  | [], _ :: _ => true
+  | _ :: _, [] => false
+  | a :: as, b :: bs => lexLt a b || (a == b && keyLt as bs)
 def keyLe (a b : Key) : Bool := !keyLt b a
 
 structure Block (R : Type) where
@@ -117,6 +123,15 @@ def toDense {R} [Zero R] (T : Tensor R) : List Nat → R := toDenseOn (legSpaces
 
 def chargeOfKey (d : SymDef) (s : List Int) (k : Key) : Charge := d.fuse k s 1
 
+/-- one bond dimension per (leg, charge): `_test_tD_consistency` -/
+def DimsCons {R} (bs : List (Key × Block R)) : Prop :=
+  ∀ x ∈ bs, ∀ y ∈ bs, ∀ i : Nat, x.1.getD i [] = y.1.getD i [] → x.2.shape.getD i 0 = y.2.shape.getD i 0
+
+/-- executable form of `DimsCons` for tensors of rank `rank` -/
+def dimsConsB {R} (rank : Nat) (bs : List (Key × Block R)) : Bool :=
+  bs.all (fun x => bs.all (fun y => (List.range rank).all (fun i =>
+    x.1.getD i [] != y.1.getD i [] || x.2.shape.getD i 0 == y.2.shape.getD i 0)))
+
 structure WF {R} (ms : List Nat) (T : Tensor R) : Prop where
   sig : ∀ x ∈ T.s, x = 1 ∨ x = -1
   ncanon : isCanonical ms T.n = true
@@ -125,7 +140,7 @@ structure WF {R} (ms : List Nat) (T : Tensor R) : Prop where
   canon : ∀ kb ∈ T.blocks, ∀ c ∈ kb.1, isCanonical ms c = true
   rule : ∀ kb ∈ T.blocks, chargeOfKey T.sym T.s kb.1 = T.n
   dimsPos : ∀ kb ∈ T.blocks, ∀ d ∈ kb.2.shape, 0 < d
-  dimsCons : ∀ i, i < T.rank → (legSpace T i).consistent = true
+  dimsCons : DimsCons T.blocks
 
 /-- decidable structural check used by the driver on every result (`is_consistent` analogue) -/
 def wfCheck {R} (ms : List Nat) (T : Tensor R) : Bool :=
@@ -134,6 +149,6 @@ def wfCheck {R} (ms : List Nat) (T : Tensor R) : Bool :=
   (T.keys.zip T.keys.tail).all (fun ab => keyLt ab.1 ab.2) &&
   T.blocks.all (fun kb => kb.1.length == T.rank && kb.2.shape.length == T.rank &&
     kb.1.all (isCanonical ms) && (chargeOfKey T.sym T.s kb.1 == T.n) && kb.2.shape.all (0 < ·)) &&
-  (List.range T.rank).all (fun i => (legSpace T i).consistent)
+  dimsConsB T.rank T.blocks
 
 end YModel
